@@ -125,3 +125,27 @@ where
     | [] => [x]
     | y :: r => if x.1 < y.1 then x :: y :: r else y :: insertSortedNat x r
 end Bmc.Driver
+
+namespace Bmc.Driver
+
+/-- Bursts over the real socket (`sendb`, `slsendb`): a raw script item `R:a+R:b` answers one transmission with several
+    datagrams. The socket is a FIFO, so attempt i reads the oldest datagram not yet read, or times out when there is none:
+    the DELIVERED script. -/
+def queueScript (raw : List String) : List String :=
+  let rec go (q : List String) : List String → List String
+    | [] => []
+    | it :: rest =>
+      let q := if it == "L" then q else q ++ it.splitOn "+"
+      match q with
+      | [] => "L" :: go [] rest
+      | d :: q' => d :: go q' rest
+  go [] raw
+
+def deliveredScript (s : String) : String := ",".intercalate (queueScript (s.splitOn ","))
+
+def evalSendB (args : List String) : String :=
+  match args.getLast? with
+  | some script => if script == "-" then "bad-op" else evalSend (args.dropLast ++ [deliveredScript script])
+  | none => "bad-op"
+
+end Bmc.Driver
